@@ -41,6 +41,14 @@ def scenarios(ctx, n):
                       delay_us=rng.choice([0, 50, 300])) for i in range(n2)]
         out.append(dict(run=100000 + j, name="epoch-rewind-%d" % j, workers=rng.choice([1, 2]), batch=rng.choice([1, 2]), cap=16, single=True,
                         seed=ctx.seed * 31 + j, recs=recs))
+    # a rebalance takes the partitions away (the real revoke callback) while every record that was handed over still sits in the
+    # output: nothing may be marked by then (franz-go commits the marks right after the callback)
+    for j in range(3):
+        nrec = rng.randint(2, 6)
+        o = rng.choice([0, 100, 2 ** 20])
+        recs = [dict(id=i + 1, topic=0, part=2, off=o + i, epoch=4, cls="P", delay_us=0) for i in range(nrec)]
+        out.append(dict(run=100100 + j, name="revoke-with-records-in-flight-%d" % j, workers=2, batch=rng.choice([1, 2]), cap=16, single=rng.random() < 0.5,
+                        seed=ctx.seed * 37 + j, recs=recs, revoke=True))
     for k in range(n):
         run = k + 2
         nrec = rng.randint(2, 14)
